@@ -24,7 +24,8 @@ def load_cfg(prop):
 
 
 def run_translator(cfg, problems):
-    gens = getattr(cfg, "GEN", [])
+    gens = list(getattr(cfg, "GEN", []))
+    gens += [g for g in C.gen_modules_needed(cfg.PROP) if g not in gens]
     if not gens:
         return {}
     import translate
